@@ -17,6 +17,7 @@ import (
 	"qchen.fun/fatchoy/packet"
 	"qchen.fun/fatchoy/qnet"
 	"qchen.fun/fatchoy/x/cipher"
+	"qchen.fun/fatchoy/x/stats"
 
 	"verifharness/hxlib"
 )
@@ -158,6 +159,19 @@ func mkPacket(id, size int) *packet.Packet {
 	return packet.New(int32(id), uint16(id), 0, Body(id, size))
 }
 
+// mkPacketRefs: the packet with the given body object and n node references (0x30000+k).
+func mkPacketRefs(id int, body []byte, n int) *packet.Packet {
+	p := packet.New(int32(id), uint16(id), 0, body)
+	if n > 0 {
+		refs := make([]fatchoy.NodeID, n)
+		for k := range refs {
+			refs[k] = fatchoy.NodeID(0x30000 + k)
+		}
+		p.SetRefers(refs)
+	}
+	return p
+}
+
 func newCodec(v int) codec.Encoder {
 	if v == 2 {
 		return codec.NewV2Encoder(0)
@@ -173,6 +187,55 @@ func newCrypt(on bool) cipher.BlockCryptor {
 		return nil
 	}
 	return cipher.NewAESCFB(aesKey, aesIV)
+}
+
+// newCryptor: the cipher of the scenario (a fresh object per call: one per direction and side, as an application has).
+func newCryptor(sc Scenario) cipher.BlockCryptor {
+	if !sc.Cipher {
+		return nil
+	}
+	key32 := append(append([]byte{}, aesKey...), aesIV...)
+	switch sc.Cryptor {
+	case "salsa20":
+		return cipher.NewCrypt("salsa20", key32, aesIV[:8])
+	case "twofish":
+		return cipher.NewCrypt("twofish", key32, aesIV)
+	case "new":
+		return &customCrypt{}
+	case "pad":
+		return &customCrypt{pad: true}
+	}
+	return cipher.NewAESCFB(aesKey, aesIV)
+}
+
+// customCrypt is a BlockCryptor of the application's own: it never writes into its argument and returns a slice of its
+// own (pad: three marker bytes longer than the input). Stateless, so that both directions and the peer agree.
+type customCrypt struct{ pad bool }
+
+func (c *customCrypt) Key() []byte { return aesKey }
+func (c *customCrypt) IV() []byte  { return aesIV }
+func (c *customCrypt) Encrypt(src []byte) []byte {
+	out := make([]byte, 0, len(src)+3)
+	if c.pad {
+		out = append(out, 0xA5, 0x5A, byte(len(src)))
+	}
+	for i, b := range src {
+		out = append(out, b^aesKey[i%16]^byte(i>>4))
+	}
+	return out
+}
+func (c *customCrypt) Decrypt(src []byte) []byte {
+	if c.pad {
+		if len(src) < 3 {
+			return nil
+		}
+		src = src[3:]
+	}
+	out := make([]byte, len(src))
+	for i, b := range src {
+		out[i] = b ^ aesKey[i%16] ^ byte(i>>4)
+	}
+	return out
 }
 
 // wireSize encodes a copy of the packet the way the connection will: 0 means "cannot be encoded".
@@ -263,7 +326,10 @@ func settle(target int, d time.Duration) int {
 // Run executes one scenario against the real code.
 func Run(sc Scenario) *Outcome {
 	installHook()
-	o := &Outcome{PeerEOFAt: -1}
+	t0 := time.Now()
+	Deadline := Deadline + time.Duration(sc.Peer.Hold)*time.Millisecond // (shadows the package variable in every closure below)
+	o := &Outcome{PeerEOFAt: -1, StatsN: qnet.NumStat, EndLagMs: -1}
+	var firstCloseRet, peerEndAt time.Time // (under omu)
 	tr := &tracer{}
 	var omu sync.Mutex // guards o's slices
 	abort := make(chan struct{})
@@ -271,36 +337,22 @@ func Run(sc Scenario) *Outcome {
 	jr := hxlib.NewRand(sc.Jitter ^ 0x5DEECE66D)
 
 	base := settle(0, 0)
-	ln, err := net.Listen("tcp", "127.0.0.1:0")
+	en, err := connect(sc)
 	if err != nil {
-		o.Hangs = append(o.Hangs, "listen: "+err.Error())
+		o.Hangs = append(o.Hangs, "connect: "+err.Error())
 		return o
 	}
-	type acc struct {
-		c   net.Conn
-		err error
-	}
-	accCh := make(chan acc, 1)
-	go func() {
-		c, err := ln.Accept()
-		accCh <- acc{c, err}
+	local, peer := en.local, en.peer
+	defer func() { // the library only half-closes a TCP socket; the harness owns the descriptors
+		for _, c := range en.raws {
+			c.Close()
+		}
 	}()
-	local, err := net.Dial("tcp", ln.Addr().String())
-	if err != nil {
-		ln.Close()
-		o.Hangs = append(o.Hangs, "dial: "+err.Error())
-		return o
+	if sc.ReadTimeout > 0 {
+		old := qnet.TConnReadTimeout
+		qnet.TConnReadTimeout = sc.ReadTimeout
+		defer func() { qnet.TConnReadTimeout = old }()
 	}
-	a := <-accCh
-	ln.Close()
-	if a.err != nil {
-		local.Close()
-		o.Hangs = append(o.Hangs, "accept: "+a.err.Error())
-		return o
-	}
-	peer := a.c.(*net.TCPConn)
-	defer peer.Close()
-	defer local.Close() // the library only half-closes; the harness owns the descriptor
 
 	enc := newCodec(sc.Codec)
 	inbound := make(chan fatchoy.IPacket, sc.ICap)
@@ -309,9 +361,14 @@ func Run(sc Scenario) *Outcome {
 	for k := 0; k < sc.EPrefill && k < sc.ECap; k++ {
 		errch <- prefill
 	}
-	tconn := qnet.NewTcpConn(fatchoy.NodeID(0x10001), local, enc, errch, inbound, sc.Cap, nil)
+	var statsArg *stats.Stats
+	if sc.Stats != nil {
+		statsArg = stats.New(*sc.Stats)
+		o.StatsN = *sc.Stats
+	}
+	tconn := qnet.NewTcpConn(fatchoy.NodeID(0x10001), local, enc, errch, inbound, sc.Cap, statsArg)
 	if sc.Cipher {
-		tconn.SetEncryptPair(newCrypt(true), newCrypt(true))
+		tconn.SetEncryptPair(newCryptor(sc), newCryptor(sc))
 	}
 	ct := &ctrl{tr: tr, armed: map[string]*parkPoint{}}
 	ctrls.Store(tconn, ct)
@@ -321,20 +378,47 @@ func Run(sc Scenario) *Outcome {
 
 	tr.log("cfg cap=%d icap=%d ecap=%d pre=%d", sc.Cap, sc.ICap, sc.ECap, min(sc.EPrefill, sc.ECap))
 	tr.log("go")
-	if p := hxlib.Guard(func() { tconn.Go(fatchoy.EndpointReadWriter) }); p != "" {
+	goFlag := fatchoy.EndpointReadWriter
+	if sc.Flag == "w" {
+		goFlag = fatchoy.EndpointWriter
+	}
+	if p := hxlib.Guard(func() { tconn.Go(goFlag) }); p != "" {
 		o.Panics = append(o.Panics, "Go: "+p)
 		return o
 	}
 
 	nextID := func(i, k int) int { return (i+1)*10000 + k }
 	sizeOf := map[int]int{} // packet id -> body size, fixed before anything runs
+	refsOf := map[int]int{} // packet id -> number of node references
+	bodyID := map[int]int{} // packet id -> the id its body is derived from (differs for senders that share one body object)
 	for i, s := range sc.Senders {
 		for k, z := range s.Sizes {
-			sizeOf[nextID(i, k)] = z
+			id := nextID(i, k)
+			sizeOf[id], bodyID[id] = z, id
+			if k < len(s.Refs) {
+				refsOf[id] = s.Refs[k]
+			}
+			if s.Share {
+				sizeOf[id], bodyID[id] = s.Sizes[0], nextID(i, 0)
+			}
 		}
 	}
 	for k := 0; k < sc.Late; k++ {
-		sizeOf[nextID(len(sc.Senders), k)] = 8
+		id := nextID(len(sc.Senders), k)
+		sizeOf[id], bodyID[id] = 8, id
+	}
+	// the body objects handed to SendPacket (one per packet; one per SENDER when it shares) and, separately, what
+	// the peer must read (never handed to the library)
+	sendBody := map[int][]byte{}
+	expBody := func(id int) []byte { return Body(bodyID[id], sizeOf[id]) }
+	for id := range sizeOf {
+		if b, ok := sendBody[bodyID[id]]; ok && bodyID[id] != id {
+			sendBody[id] = b
+			continue
+		}
+		b := Body(bodyID[id], sizeOf[id])
+		sendBody[id] = b
+		sendBody[bodyID[id]] = b
 	}
 	if sc.Forced != "" && len(sc.Closers) == 0 {
 		sc.Closers = []Closer{{Graceful: true}}
@@ -359,8 +443,11 @@ func Run(sc Scenario) *Outcome {
 
 	// ---- one SendPacket call ---------------------------------------------------------------------
 	wireOf := map[int]int{}
-	for id, z := range sizeOf {
-		wireOf[id], _ = wireSize(enc, newCrypt(sc.Cipher), id, z)
+	for id := range sizeOf {
+		var buf countingWriter
+		if n, err := enc.WritePacket(&buf, newCryptor(sc), mkPacketRefs(id, expBody(id), refsOf[id])); err == nil {
+			wireOf[id] = n
+		}
 	}
 	doSend := func(i, id, size int) string {
 		w := wireOf[id]
@@ -368,7 +455,7 @@ func Run(sc Scenario) *Outcome {
 		if w == 0 {
 			e = 0
 		}
-		pkt := mkPacket(id, size)
+		pkt := mkPacketRefs(id, sendBody[id], refsOf[id])
 		callAt := tr.log("scall i=%d p=%d z=%d e=%d", i, id, w, e)
 		var serr error
 		pan := hxlib.Guard(func() { serr = tconn.SendPacket(pkt) })
@@ -393,6 +480,7 @@ func Run(sc Scenario) *Outcome {
 		}
 		backlog := len(outq)
 		callAt := tr.log("ccall j=%d g=%d", j, g)
+		began := time.Now()
 		ph.fire("ccall")
 		done := make(chan string, 1)
 		go func() {
@@ -408,6 +496,7 @@ func Run(sc Scenario) *Outcome {
 		select {
 		case pan := <-done:
 			rec.Res = "ok"
+			rec.DurMs = int(time.Since(began) / time.Millisecond)
 			if pan != "" {
 				rec.Res = "panic"
 			}
@@ -416,6 +505,9 @@ func Run(sc Scenario) *Outcome {
 			rec.Running = tconn.IsRunning()
 			rec.RetAt = tr.log("cret j=%d r=%s", j, rec.Res)
 			omu.Lock()
+			if firstCloseRet.IsZero() {
+				firstCloseRet = time.Now()
+			}
 			if pan != "" {
 				o.Panics = append(o.Panics, fmt.Sprintf("closer %d (graceful=%v): %s", j, graceful, pan))
 			}
@@ -443,6 +535,13 @@ func Run(sc Scenario) *Outcome {
 	peerReads := sc.Peer.Read != "never"
 	go func() {
 		defer close(peerDone)
+		defer func() {
+			omu.Lock()
+			if o.PeerEOF || o.PeerReset {
+				peerEndAt = time.Now()
+			}
+			omu.Unlock()
+		}()
 		if !peerReads {
 			return
 		}
@@ -452,12 +551,60 @@ func Run(sc Scenario) *Outcome {
 				return
 			}
 		}
+		if sc.Peer.Hold > 0 {
+			select {
+			case <-time.After(time.Duration(sc.Peer.Hold) * time.Millisecond):
+			case <-abort:
+				return
+			}
+		}
+		if en.silent {
+			// the TLS peer that never speaks: it only watches its raw socket for the stream end. Whatever bytes arrive
+			// (a ClientHello, an alert) are not frames. It gives up 2 s after every scripted closer has returned.
+			var buf [512]byte
+			var closedAt time.Time
+			for {
+				peer.SetReadDeadline(time.Now().Add(50 * time.Millisecond))
+				n, err := peer.Read(buf[:])
+				o.PeerBytes += int64(n)
+				if err == nil {
+					continue
+				}
+				if ne, ok := err.(net.Error); ok && ne.Timeout() {
+					select {
+					case <-ph.get("allcret"):
+						if closedAt.IsZero() {
+							closedAt = time.Now()
+						}
+					default:
+					}
+					if (!closedAt.IsZero() && time.Since(closedAt) > 2*time.Second) || time.Since(t0) > 2*Deadline+2*time.Second {
+						omu.Lock()
+						o.PeerErr = err.Error()
+						omu.Unlock()
+						hang("peer saw neither a frame nor end-of-stream (it waited 2 s beyond the return of the last Close/ForceClose call)")
+						return
+					}
+					continue
+				}
+				omu.Lock()
+				if err == io.EOF {
+					o.PeerEOF = true
+					o.PeerEOFAt = tr.log("weof k=0")
+				} else {
+					o.PeerErr = err.Error()
+					o.PeerReset = resetClass(err)
+				}
+				omu.Unlock()
+				return
+			}
+		}
 		omuSizes := func(id int) (int, bool) {
 			z, ok := sizeOf[id]
 			return z, ok
 		}
 		rd := bufio.NewReaderSize(countingReader{peer, &o.PeerBytes}, 64*1024)
-		dec := newCrypt(sc.Cipher)
+		dec := newCryptor(sc)
 		k := 0
 		for {
 			peer.SetReadDeadline(time.Now().Add(2*Deadline + 2*time.Second))
@@ -473,6 +620,7 @@ func Run(sc Scenario) *Outcome {
 			if err != nil {
 				omu.Lock()
 				o.PeerErr = err.Error()
+				o.PeerReset = resetClass(err)
 				omu.Unlock()
 				if ne, ok := err.(net.Error); ok && ne.Timeout() {
 					hang("peer saw neither a frame nor end-of-stream")
@@ -490,13 +638,17 @@ func Run(sc Scenario) *Outcome {
 				omu.Lock()
 				o.PeerBad = append(o.PeerBad, fmt.Sprintf("frame %d carries unknown packet id %d", k, id))
 				omu.Unlock()
-			} else if !bytes.Equal(bodyOf(pkt), Body(id, size)) && !(len(bodyOf(pkt)) == 0 && size == 0) {
+			} else if !bytes.Equal(bodyOf(pkt), expBody(id)) && !(len(bodyOf(pkt)) == 0 && size == 0) {
 				omu.Lock()
 				o.PeerBad = append(o.PeerBad, fmt.Sprintf("frame %d (packet %d): body differs from what was sent", k, id))
 				omu.Unlock()
 			} else if pkt.Seq() != uint16(id) {
 				omu.Lock()
 				o.PeerBad = append(o.PeerBad, fmt.Sprintf("frame %d (packet %d): seq %d", k, id, pkt.Seq()))
+				omu.Unlock()
+			} else if sc.Codec == 2 && len(pkt.Refers()) != refsOf[id] {
+				omu.Lock()
+				o.PeerBad = append(o.PeerBad, fmt.Sprintf("frame %d (packet %d): %d node references, sent with %d", k, id, len(pkt.Refers()), refsOf[id]))
 				omu.Unlock()
 			}
 			k++
@@ -521,7 +673,7 @@ func Run(sc Scenario) *Outcome {
 		pr := hxlib.NewRand(sc.Jitter + 77)
 		for k, size := range sc.Peer.Frames {
 			id := peerIDBase + k
-			n, raw := wireSize(enc, newCrypt(sc.Cipher), id, size)
+			n, raw := wireSize(enc, newCryptor(sc), id, size)
 			if n == 0 {
 				continue
 			}
@@ -531,7 +683,26 @@ func Run(sc Scenario) *Outcome {
 			}
 			tr.log("pframe p=%d z=%d", id, n)
 			peer.SetWriteDeadline(time.Now().Add(Deadline))
-			if _, err := peer.Write(raw); err != nil {
+			if sc.Peer.Chunk > 0 {
+				failed := false
+				for off := 0; off < len(raw) && !failed; off += sc.Peer.Chunk {
+					end := off + sc.Peer.Chunk
+					if end > len(raw) {
+						end = len(raw)
+					}
+					if _, err := peer.Write(raw[off:end]); err != nil {
+						failed = true
+					}
+					if pr.Intn(4) == 0 {
+						time.Sleep(time.Duration(pr.Intn(60)) * time.Microsecond)
+					} else {
+						runtime.Gosched()
+					}
+				}
+				if failed {
+					return
+				}
+			} else if _, err := peer.Write(raw); err != nil {
 				return
 			}
 			omu.Lock()
@@ -543,12 +714,17 @@ func Run(sc Scenario) *Outcome {
 		switch sc.Peer.Tail {
 		case "fin":
 			tr.log("pfin")
-			peer.CloseWrite()
+			if en.halfFin != nil {
+				en.halfFin()
+			}
 		case "rst":
 			tr.log("prst")
-			peer.SetLinger(0)
 			peerClosed = true
-			peer.Close()
+			if en.reset != nil {
+				en.reset()
+			} else {
+				peer.Close()
+			}
 		case "garbage":
 			tr.log("pgarbage")
 			peer.Write(bytes.Repeat([]byte{0xFF}, 32))
@@ -577,7 +753,7 @@ func Run(sc Scenario) *Outcome {
 			_, more := wireSize(enc, nil, outer+1, 5)
 			peer.Write(more)
 		case "badcrc":
-			_, raw := wireSize(enc, newCrypt(sc.Cipher), peerIDBase+len(sc.Peer.Frames), 9)
+			_, raw := wireSize(enc, newCryptor(sc), peerIDBase+len(sc.Peer.Frames), 9)
 			raw[len(raw)-1] ^= 0x40
 			tr.log("pgarbage")
 			peer.Write(raw)
@@ -606,6 +782,7 @@ func Run(sc Scenario) *Outcome {
 	// ---- consumers -------------------------------------------------------------------------------
 	stopCons := make(chan struct{})
 	var cons sync.WaitGroup
+	var held []fatchoy.IPacket // every packet the inbound consumer received, kept (K8: compared AGAIN at the end of the run)
 	if sc.Inb != "never" && sc.Inb != "" {
 		cons.Add(1)
 		go func() {
@@ -625,6 +802,7 @@ func Run(sc Scenario) *Outcome {
 					id := int(p.Command())
 					tr.log("iret p=%d", id)
 					omu.Lock()
+					held = append(held, p)
 					o.InbGot = append(o.InbGot, id)
 					if ep, ok := p.(*packet.Packet); !ok || ep.Endpoint() != fatchoy.MessageEndpoint(tconn) {
 						o.InbBad = append(o.InbBad, fmt.Sprintf("inbound packet %d is not bound to the connection it arrived on", id))
@@ -663,6 +841,7 @@ func Run(sc Scenario) *Outcome {
 					}
 					kind := errKind(e)
 					tr.log("eret e=%s", kind)
+					ph.fire("errgot")
 					omu.Lock()
 					o.Errs = append(o.Errs, kind)
 					if ne, ok := e.(*qnet.Error); !ok || ne.Endpoint != fatchoy.Endpoint(tconn) {
@@ -855,6 +1034,28 @@ func Run(sc Scenario) *Outcome {
 	}
 	close(stopCons)
 	cons.Wait()
+	omu.Lock()
+	if !firstCloseRet.IsZero() && !peerEndAt.IsZero() {
+		o.EndLagMs = int(peerEndAt.Sub(firstCloseRet) / time.Millisecond)
+		if o.EndLagMs < 0 {
+			o.EndLagMs = 0
+		}
+	}
+	omu.Unlock()
+	// held outputs: what was delivered must not change behind the consumer's back while later frames were read
+	for k, p := range held {
+		if len(o.InbBad) > 0 {
+			break // (already wrong when it was delivered)
+		}
+		id := int(p.Command())
+		if id >= peerIDBase && id-peerIDBase < len(sc.Peer.Frames) {
+			size := sc.Peer.Frames[id-peerIDBase]
+			if !bytes.Equal(bodyOf(p), Body(id, size)) && !(len(bodyOf(p)) == 0 && size == 0) {
+				o.InbBad = append(o.InbBad, fmt.Sprintf("inbound packet %d: body CHANGED after it was delivered (it was right then; held while %d further frames were read)", id, len(held)-1-k))
+				break
+			}
+		}
+	}
 	if hung() {
 		close(abort)
 		omu.Lock()
@@ -920,6 +1121,11 @@ func raceRelease(forced string, cdone chan struct{}) chan struct{} {
 	return nil
 }
 
+// countingWriter discards what is written (used to learn whether and how large a packet encodes).
+type countingWriter struct{ n int }
+
+func (c *countingWriter) Write(p []byte) (int, error) { c.n += len(p); return len(p), nil }
+
 type countingReader struct {
 	r io.Reader
 	n *int64
@@ -949,5 +1155,33 @@ func (sc Scenario) Describe() string {
 		fmt.Fprintf(&sb, " C%v@%s", c.Graceful, c.When)
 	}
 	fmt.Fprintf(&sb, " P%s/%d/%s@%s in=%s er=%s late%d %s", sc.Peer.Read, len(sc.Peer.Frames), sc.Peer.Tail, sc.Peer.WriteWhen, sc.Inb, sc.Err, sc.Late, sc.Forced)
+	if sc.Transport != "" {
+		fmt.Fprintf(&sb, " over=%s", sc.Transport)
+		if sc.Accepted {
+			sb.WriteString("(accepted end)")
+		}
+	}
+	if sc.Stats != nil {
+		fmt.Fprintf(&sb, " stats=%d", *sc.Stats)
+	}
+	if sc.ReadTimeout > 0 {
+		fmt.Fprintf(&sb, " rt=%ds", sc.ReadTimeout)
+	}
+	if sc.Flag != "" {
+		fmt.Fprintf(&sb, " go=%s", sc.Flag)
+	}
+	if sc.Peer.Hold > 0 {
+		fmt.Fprintf(&sb, " hold=%dms", sc.Peer.Hold)
+	}
+	for i, s := range sc.Senders {
+		if s.Share {
+			fmt.Fprintf(&sb, " S%d:one-body", i)
+		}
+		for k, z := range s.Sizes {
+			if (sc.Codec == 1 && z <= -61000) || z <= -(8<<20) || (sc.Codec == 2 && k < len(s.Refs) && s.Refs[k] > 255) {
+				fmt.Fprintf(&sb, " S%d[%d/%d]:over-limit", i, k, len(s.Sizes))
+			}
+		}
+	}
 	return sb.String()
 }
